@@ -128,6 +128,30 @@ def run_traces(ctx, want_sha_equal=True):
     return results, first
 
 
+def validate_obs(r):
+    """C05 verdict on ONE recorded run by the permissive observer Trace_PipelineObs.tla: every event is applied whatever it is and only the
+    clauses of C05 are evaluated (finished, every worker through every round, all exited, every contig compressed exactly once).
+    Returns (ok, detail)."""
+    t = C.run_tlc("Trace_PipelineObs", "Trace_PipelineObs.cfg", workdir=os.path.dirname(r["trace"]), workers=1, env={"TRACE": r["trace"]},
+                  coverage=False, deque=True, xmx="3g", timeout=1500)
+    if t.ok:
+        return True, ""
+    if t.violated:
+        bad = ""
+        for st in t.cex[::-1]:
+            for ln in st:
+                if "bad = " in ln:
+                    bad = ln.split("bad = ", 1)[1].strip()
+                    break
+            if bad:
+                break
+        return False, "observer invariant %s violated: %s" % (t.violated, bad or "end state: not all workers exited / not every contig compressed / result not ok")
+    um = [p for (tag, p) in t.printed if tag == "UNMATCHED"]
+    if um:
+        return False, "observer: record %s is not an event of the pipeline vocabulary" % um[0][0]
+    raise C.ToolError("Trace_PipelineObs %s: no verdict: %s\n%s" % (r["id"], t.error, t.raw[-2000:]))
+
+
 def keep_replay(ctx, r):
     dst = os.path.join(C.REPLAYS, ctx.pid, "trace_" + r["id"] + ".ndjson")
     os.makedirs(os.path.dirname(dst), exist_ok=True)
